@@ -16,6 +16,7 @@ import copy
 import pfimport  # noqa: F401
 from pfimport import exc_enum
 
+import c10_join as J
 import c10_nestmap as NM
 import c10_picker as PK
 import c10_runner as R
@@ -24,7 +25,7 @@ import mapgen
 import pipegen
 
 PID = "C10"
-PROPS = ["PfModel.Props.C10", "PfModel.Props.C10Axis", "PfModel.Props.C10Total", "PfModel.Props.C10Map", "PfModel.Props.C10Ops", "PfModel.Props.C10Ren", "PfModel.Props.C10AxisPrior", "PfModel.Props.C10NestMap", "PfModel.Props.C10NestMapRun", "PfModel.Props.C10NestWrap"]
+PROPS = ["PfModel.Props.C10", "PfModel.Props.C10Axis", "PfModel.Props.C10Total", "PfModel.Props.C10Map", "PfModel.Props.C10Ops", "PfModel.Props.C10Ren", "PfModel.Props.C10AxisPrior", "PfModel.Props.C10NestMap", "PfModel.Props.C10NestMapRun", "PfModel.Props.C10NestWrap", "PfModel.Props.C10Join", "PfModel.Props.C10RenWF"]
 DRIVER = "C10"
 RULE = ("an environment with a pipegen DAG (1-5 term-building functions: tuple outputs, shared parameters, defaults, bound values, renames) or a "
         "well-formed mapgen MapSpec pipeline (1-3 functions), optionally a second pipeline to join; a history of 1-3 rewrites drawn by weight "
@@ -44,6 +45,12 @@ RULE = ("an environment with a pipegen DAG (1-5 term-building functions: tuple o
         "of functions, two of them linked only through a shared root argument whose default is declared on one consumer / both / none; for every call pipeline "
         "with a NestedPipeFunc the way out of the nest is replayed step by step (call_full_output dictionary, _NestedFuncWrapper return value, picker) and "
         "compared with PF.Rw.Wrap on the same dictionary (driver entry nest_wrap); the source shape of those three pieces is compared with the shape the model mirrors; "
+        "round 9: every 10th case is a JOIN case (harness/c10_join.py): 2-3 pipelines around a step that wraps the SAME callable (identical / another bound value / bound in "
+        "one only / another default / default in one only / inputs renamed / OUTPUT renamed, tuple outputs 25 %) or without one (disjoint, feeding, feeding each "
+        "other, two defaults for an argument whose producer comes later / earlier, clashing / equal root defaults), then 1-3 joins drawn from p | q, q | p, "
+        "p.join(q, r), a bare PipeFunc operand (the shared step of the other pipeline or any of its functions, possibly twice), p | p, p | reconfigured copy of p; "
+        "every output of every operand is compared with the joined pipeline (call, defaults left out, map) unless another operand produces one of its roots; the "
+        "model step is PF.Rw.Join.joinAll (accept/refuse, class, reason, summary, values) - also for the two-pipeline joins of the other streams; "
         "a separate malformed stream (unused rename keys, capturing renames, unknown outputs, dropped "
         "consumed outputs, drop/replace of an unknown output, add of a duplicate output) only demands refusal-or-consistency and an unchanged original; non-trivial = at least one rewrite other than "
         "copy/pickle was performed on a pipeline with >= 2 functions; distinct by (environment, ops)")
@@ -57,7 +64,11 @@ ASSUMPTIONS = ["inspect.signature, networkx (connected components, predecessor o
                "only root arguments are supplied as keywords (the rewritten pipeline is not required to accept former intermediates)",
                "a custom output_picker knows the outputs by the names given in output_name (the ORIGINAL names) - what pipefunc hands it after fix DF-C10-picker-renamed-output; "
                "the values it picks are the same terms the default picker yields, so the model (Val.pick raw originalName) does not distinguish picker kinds",
-               "which of several applicable reasons a refused nest of >= 3 MapSpec functions reports depends on the iteration order of a Python set: not compared"]
+               "which of several applicable reasons a refused nest of >= 3 MapSpec functions reports depends on the iteration order of a Python set: not compared",
+               "round 9: the model identifies a wrapped callable by the function name its terms record; in the join environments (`shared`) all functions of one name "
+               "wrap ONE Python callable (`g.func is f.func`) and differ only in renames / explicit defaults / bound values; a join's refusal REASON is read off the "
+               "message for the documented refusals only (already exists / Inconsistent default / cycle), anything else is `other` and not compared; the order of the "
+               "functions of a joined pipeline is compared in the join stream only (other streams do not track the listing order)"]
 
 
 # ---------------------------------------------------------------------------------------------- generation
@@ -710,7 +721,52 @@ def PICK3(style, mid=()):
     return call_env(F("f", ["a", "b"], ["x"]), FP("g", ["x", "a"], ["c", "d"], style), F("h", ["c", "d", *mid], ["e"]))
 
 
+def SH(name, funcs):
+    """an environment entry whose functions of one name share ONE callable with the other `SH` entries (harness/c10_join.py)"""
+    return [name, {"kind": "call", "shared": True, "desc": {"funcs": funcs}}]
+
+
+def S0(outputs=("d",), x="x", **kw):
+    """the shared step `s0(x, c) -> d` (original names), as configured in one pipeline"""
+    return J.F("s0", [[x, "x"], ["c", "c"]], list(outputs), outorig=["d"], **kw)
+
+
 CORPUS: list = [
+    # seeded change C10-s4-B (round 9): two pipelines containing the SAME callable under the same output name, configured differently (another bound
+    # value / another default / a renamed input): join and | must refuse (duplicate output) in either order, as a bare PipeFunc operand, and p | p
+    {"env": [SH("p0", [S0(bound=[["c", {"s": "bound:c:0"}]]), J.F("p0", [["d", "data"], ["y", "y"]], ["pa"])]),
+             SH("q0", [S0(bound=[["c", {"s": "bound:c:1"}]]), J.F("q0", [["d", "data"]], ["qa"])])],
+     "ops": [{"op": "join_x", "src": "p0", "others": [{"p": "q0"}], "dst": "j0", "via": "or"},
+             {"op": "join_x", "src": "q0", "others": [{"p": "p0"}], "dst": "j1", "via": "join"},
+             {"op": "join_x", "src": "p0", "others": [{"f": ["q0", "d"]}], "dst": "j2", "via": "or"},
+             {"op": "join_x", "src": "p0", "others": [{"f": ["q0", "qa"]}], "dst": "j3", "via": "or"},
+             {"op": "join_x", "src": "p0", "others": [{"p": "p0"}], "dst": "j4", "via": "or"}]},
+    {"env": [SH("p0", [S0(), J.F("p0", [["d", "data"], ["y", "y"]], ["pa"])]),
+             SH("q0", [S0(defaults=[["c", {"s": "dflt:c:1"}]]), J.F("q0", [["d", "data"]], ["qa"])]),
+             SH("r0", [S0(x="x2"), J.F("r0", [["d", "data"]], ["ra"])])],
+     "ops": [{"op": "join_x", "src": "p0", "others": [{"p": "q0"}], "dst": "j0", "via": "or"},
+             {"op": "join_x", "src": "p0", "others": [{"p": "r0"}], "dst": "j1", "via": "or"},
+             {"op": "join_x", "src": "q0", "others": [{"p": "r0"}, {"p": "p0"}], "dst": "j2", "via": "join"}]},
+    # the same callable under ANOTHER output name in the second pipeline: accepted, and both configurations keep computing their own values
+    # (call, defaults left out, map); three operands; a copy of p reconfigured in place and joined with p (refused)
+    {"env": [SH("p0", [S0(bound=[["c", {"s": "bound:c:0"}]]), J.F("p0", [["d", "data"], ["y", "y"]], ["pa"])]),
+             SH("q0", [S0(outputs=["d1"], defaults=[["c", {"s": "dflt:c:1"}]]), J.F("q0", [["d1", "data"]], ["qa"])]),
+             SH("r0", [J.F("r0", [["qa", "u"], ["pa", "v"]], ["ra"])])],
+     "ops": [{"op": "join_x", "src": "p0", "others": [{"p": "q0"}], "dst": "j0", "via": "or"},
+             {"op": "join_x", "src": "r0", "others": [{"p": "q0"}, {"p": "p0"}], "dst": "j1", "via": "join"},
+             {"op": "copy", "src": "p0", "dst": "c0"},
+             {"op": "set_bound", "target": "c0", "out": "pa", "map": [["y", {"s": "newbound"}]]},
+             {"op": "join_x", "src": "p0", "others": [{"p": "c0"}], "dst": "j2", "via": "or"}]},
+    # `join` validates every PREFIX of the concatenation: two defaults for `z` are refused when the producer of `z` is added after
+    # them and accepted when it is added before; p | q and q | p differ; pipelines feeding each other are refused (cycle)
+    {"env": [SH("p0", [J.F("f0", ["r0", "z"], ["o0"], defaults=[["z", {"s": "dflt:z:0"}]])]),
+             SH("q0", [J.F("g0", ["r1", "z"], ["q0"], defaults=[["z", {"s": "dflt:z:1"}]]), J.F("g1", ["r2"], ["z"])]),
+             SH("r0", [J.F("g1", ["r2"], ["z"]), J.F("g0", ["r1", "z"], ["q0"], defaults=[["z", {"s": "dflt:z:1"}]])])],
+     "ops": [{"op": "join_x", "src": "p0", "others": [{"p": "q0"}], "dst": "j0", "via": "or"},
+             {"op": "join_x", "src": "p0", "others": [{"p": "r0"}], "dst": "j1", "via": "or"},
+             {"op": "join_x", "src": "q0", "others": [{"p": "p0"}], "dst": "j2", "via": "or"}]},
+    {"env": [SH("p0", [J.F("f0", ["q0", "r0"], ["o0"])]), SH("q0", [J.F("g0", ["o0", "r2"], ["q0"])])],
+     "ops": [{"op": "join_x", "src": "p0", "others": [{"p": "q0"}], "dst": "j0", "via": "or"}]},
     # seeded change C10-s3-A: a nest that exports EXACTLY the tuple of its multi-output leaf, the leaf having a custom output_picker
     # (dict result / reversed tuple / object): nest_funcs with the leaf's tuple, in another order, plus the intermediate (control),
     # NestedPipeFunc built by hand, simplified_pipeline choosing the tuple by itself; then renamed / scoped / pickled
@@ -892,7 +948,7 @@ def run(ctx):
     for k in range(ctx.n(640, 12000)):
         try:
             case, runner = (gen_rename_case(rng, k) if k % 5 == 4 else gen_nestmap_case(rng, k) if k % 5 == 2 else
-                            gen_split_case(rng, k) if k % 10 == 6 else gen_case(rng, k))
+                            gen_split_case(rng, k) if k % 10 == 6 else J.gen_join_case(rng, k, R, propose_mutation) if k % 10 == 8 else gen_case(rng, k))
         except Exception as e:  # noqa: BLE001   the generator builds valid pipelines only
             ctx.count(f"generator-exc:{exc_enum(e)}")
             raise
